@@ -1144,11 +1144,17 @@ class Translator:
         item = ("func", fi.key, fi.module)
         st = self.state.get(item)
         if st == "done": return True
-        if st in ("busy", "pending", "failed"): return False
-        try:
-            return self.emit(item, soft=True)
-        except Deferred:
+        if st == "failed": return False
+        if st in ("busy", "pending"):
+            ft.degraded = True       # unavailable only because of the current emission order
             return False
+        try:
+            ok = self.emit(item, soft=True)
+        except Deferred:
+            ok = False
+        if not ok and self.state.get(item) != "failed":
+            ft.degraded = True
+        return ok
 
     def ensure_hard(self, ft, item):
         """returns 'done' or 'scc' (callee is in the caller's recursion group)"""
@@ -1237,6 +1243,11 @@ class Translator:
             self.report[rkey] = "FAILED: recursion limit"
             return False
         self.stack.pop()
+        if soft and getattr(ft, "degraded", False) and self.group_of.get(item) is None:
+            # translated while some operator implementation was not yet available (emission
+            # order): do not keep this version; it is emitted again later, when complete
+            self.state[item] = None
+            return False
         g = self.group_of.get(item)
         if g is None:
             self.commit_wrappers(mname, ft)
